@@ -595,6 +595,9 @@ ASSUME = [
     'name must be representable in the file-system encoding of the process',
     'an exception may leave estimate()/quick_estimate() anywhere (BootstrapAbort when inside the bootstrap loop); the '
     'object stays usable',
+    'what a user does to the file or to the model name between two runs on one object (older check point put back, '
+    'file removed, model renamed) is not an operation of the model: T15a_file_is_best_after_any_start covers it by '
+    'quantifying over an ARBITRARY earlier state and file system, and the iter stream runs such sessions oracle-only',
     'the log likelihood is not NaN at a point whose gradient norm is finite (hypothesis f_not_nan of T15a/T15c)',
     'a write is modelled byte by byte (every prefix of the content is a possible crash state); a crash is the end of '
     'the process (page cache survives), not a power failure: durability (fsync) is outside the property',
@@ -836,11 +839,40 @@ class Hist:
         self.items = []  # (coq op, obs or None, label)
         self.counted = []  # (x hex list, f hex) since the last start
         self.inboot = False
+        self.model = sess['model']  # current name of the model (rename operations change it)
+        self.files = {('__' + k + '.iter' if not k.endswith('.iter') else k): v
+                      for k, v in (sess.get('other_files') or {}).items()}
         self.prev_file = pre_file
         self.viol = []  # (key, what, detail)
         self.n_eval = 0
         self.kinds = set()
         self.unmodelled = False
+
+    @property
+    def fname(self):
+        return '__' + self.model + '.iter'
+
+    @property
+    def prev_file(self):
+        return self.files.get(self.fname)
+
+    @prev_file.setter
+    def prev_file(self, v):
+        self.files[self.fname] = v
+
+    def check_other_files(self, obs, where):
+        """iteration files of OTHER model names are never touched"""
+        got = obs.get('files')
+        if got is None:
+            return
+        for n in set(got) | set(self.files):
+            if n == self.fname:
+                continue
+            if got.get(n) != self.files.get(n):
+                self.viol.append(('C15/iter/other-file-touched',
+                                  f'the iteration file {n} of another model name was written while the model is called '
+                                  f'{self.model!r}', {'where': where, 'file': n, 'before': self.files.get(n), 'after': got.get(n)}))
+                self.files[n] = got.get(n)
 
     def lines(self, x):
         return ''.join(f'{enc(n)} = {txt(v)}\n' for n, v in zip(self.sess['names'], x))
@@ -897,6 +929,7 @@ class Hist:
 
     def observe_file(self, obs, where):
         """the property, on the bytes found on disk"""
+        self.check_other_files(obs, where)
         f = obs.get('file')
         b = self.best()
         if b == 'nan':
@@ -1000,7 +1033,10 @@ class Hist:
                     inner = [r for r in rec.get('inner', []) if 'x' in r]
                     first = inner[0]['x'] if inner else None
                     bad = any(e is not None and e != g for e, g in zip(exp, got))
-                    if bad or (first is not None and all(e is not None for e in exp) and first != exp):
+                    # (the optimiser itself moves a start beyond ~1e154 inside its own numerical bounds: the first
+                    # evaluation is compared only for ordinary magnitudes; the starting values always are)
+                    ordinary = all(e is not None and abs(unhex(e)) < 1e100 for e in exp)
+                    if bad or (first is not None and ordinary and first != exp):
                         self.viol.append(('C15/iter/restart-not-from-file',
                                           f'{kind} did not start from the values saved in the iteration file',
                                           {'where': label, 'file': file_before, 'starting_values': [unhex(g) for g in got],
@@ -1031,6 +1067,25 @@ class Hist:
             # the user removes the file (oracle-only sessions: this operation is not in the model)
             self.unmodelled = True
             self.prev_file = None
+        elif kind == 'put_file':
+            # the user puts an older check point back / edits the file to choose another restart point
+            # (always followed by the start of an estimation; oracle-only)
+            self.unmodelled = True
+            self.kinds.add('put_file')
+            self.prev_file = op['content']
+            self.counted = []
+        elif kind == 'rename':
+            # the model is renamed on the same object (always followed by the start of an estimation; oracle-only)
+            self.unmodelled = True
+            self.kinds.add('rename')
+            self.model = op['name']
+            self.counted = []
+            self.check_other_files(rec, label)
+            if rec.get('file') != self.prev_file:
+                self.viol.append(('C15/iter/other-file-touched', 'renaming the model changed an iteration file', label))
+            if rec.get('fname') is not None and rec['fname'] != self.fname:
+                self.viol.append(('C15/iter/file-name', f'after the model was renamed {self.model!r} the iteration file name is '
+                                  f'still {rec["fname"]!r}', label))
         else:
             raise RuntimeError(f'unknown op {kind}')
 
@@ -1070,7 +1125,7 @@ def zeros(rng, x, p=0.3):
     return x
 
 
-def gen_session(rng, long=False, with_delete=False):
+def gen_session(rng, long=False, with_delete=False, external=False):
     k = rng.choice([1, 2, 2, 3])
     names = sorted(rng.sample(NAME_POOL, k))
     # an optimum with coordinates exactly 0: estimate() ends (and saves) there
@@ -1089,6 +1144,14 @@ def gen_session(rng, long=False, with_delete=False):
     sess['clocale'] = rng.random() < 0.5
     ops = [{'op': 'new'}]
     last = None
+    evaluated = []
+    cur_name = [sess['model']]
+    if external and rng.random() < 0.6:
+        # iteration files of other model names, left by interrupted sessions
+        sess['other_files'] = {}
+        for m in rng.sample([m for m in MODEL_POOL + ['m2', 'other'] if m != sess['model']], 2):
+            x0 = [t + dy(rng, -8, 8) for t in targets]
+            sess['other_files']['__' + m + '.iter'] = ''.join(f'{enc(n)} = {txt(fhex(v))}\n' for n, v in zip(names, x0))
 
     def interrupt(op):
         """with some probability the call is left by an exception: right after its j-th evaluation (wherever
@@ -1128,6 +1191,7 @@ def gen_session(rng, long=False, with_delete=False):
             if len(x) == k and all(math.isfinite(v) for v in x) and x[0] != 0.1:
                 x = zeros(rng, x, 0.15)
                 last = x
+                evaluated.append(x)
             e = {'op': 'eval', 'x': [fhex(v) for v in x]}
             # the public API: per-observation values (scaled=True), hessian / BHHH requested, deprecated alias.
             # The marker always compares TOTALS, whatever the caller asks for.
@@ -1140,8 +1204,28 @@ def gen_session(rng, long=False, with_delete=False):
             if rng.random() < 0.08:
                 e['alias'] = True
             ops.append(e)
-        elif r < 0.66 and last is not None:
+        elif r < 0.66 and last is not None and not (external and r >= 0.635):
             ops.append({'op': rng.choice(['findiff', 'checkder']), 'x': [fhex(v) for v in last]})
+        elif external and r < 0.72:
+            # what a user does between two runs ON THE SAME OBJECT, always followed by a new run:
+            # puts an older / another check point back, removes the file, renames the model
+            what = rng.random()
+            if what < 0.45:
+                src = rng.random()
+                if src < 0.5 and evaluated:
+                    x0 = rng.choice(evaluated)  # an older check point
+                else:
+                    x0 = [t + dy(rng, -8, 8) for t in targets]  # a poorer point chosen by hand
+                ops.append({'op': 'put_file', 'content': ''.join(f'{enc(n)} = {txt(fhex(v))}\n' for n, v in zip(names, x0))})
+            elif what < 0.55:
+                ops.append({'op': 'delete_file'})
+            else:
+                others = [m for m in MODEL_POOL + ['m2', 'other'] if m != cur_name[0]]
+                new_name = rng.choice(others)
+                cur_name[0] = new_name
+                ops.append({'op': 'rename', 'name': new_name})
+            ops.append(interrupt({'op': rng.choice(['quick', 'quick', 'estimate', 'estimate_boot'])}))
+            last = None
         elif r < 0.74:
             if with_delete and rng.random() < 0.6:
                 ops.append({'op': 'delete_file'})
@@ -1215,7 +1299,8 @@ def stream_iter(ctx):
                     'non-improving or non-finite one; distinct by (names, model, ops)')
     rng = ctx.sub_rng('iter')
     sessions = load_corpus('iter') + [gen_session(rng) for _ in range(ctx.n(48, 1500))] \
-        + [gen_session(rng, long=True) for _ in range(ctx.n(6, 200))]
+        + [gen_session(rng, long=True) for _ in range(ctx.n(6, 200))] \
+        + [gen_session(rng, long=(i % 2 == 0), external=True) for i in range(ctx.n(24, 500))]
     results = run_sessions(ctx, 'iter', sessions, ctx.n(8, 16))
     cases = []
     for sess, res in zip(sessions, results):
@@ -1226,9 +1311,9 @@ def stream_iter(ctx):
             # the id manager must present the names in the order the harness assumed (sorted)
             if rec.get('names') is not None and rec['names'] != sess['names']:
                 ctx.stream_broken('iter', f'free parameter names {rec["names"]} != sorted {sess["names"]}')
-            if rec.get('fname') is not None and rec['fname'] != '__' + sess['model'] + '.iter':
-                h.viol.append(('C15/iter/file-name', f'file name {rec["fname"]}', f'step {i}'))
             h.feed(i, op, rec)
+            if rec.get('fname') is not None and rec['fname'] != h.fname and op['op'] != 'rename':
+                h.viol.append(('C15/iter/file-name', f'file name {rec["fname"]} while the model is called {h.model!r}', f'step {i}'))
         key = {'names': sess['names'], 'model': sess['model'], 'ops': sess['ops'], 'pre': sess.get('pre_file')}
         st.record(key, nontrivial=len(h.kinds & {'counted'}) > 0 and h.n_eval >= 3
                   and bool(h.kinds & {'nonfinite', 'boot', 'badlen', 'estimate', 'quick', 'estimate_boot', 'scaled',
@@ -1239,6 +1324,10 @@ def stream_iter(ctx):
         if sess.get('clocale') and any(ord(ch) > 127 for n in sess['names'] for ch in n):
             st.extra['sessions_non_ascii_names_in_C_locale'] = st.extra.get('sessions_non_ascii_names_in_C_locale', 0) + 1
         report(ctx, h.viol, sess, 'iter')
+        if h.unmodelled:
+            # sessions with operations outside the model (file replaced by the user, model renamed): oracle only
+            st.extra['oracle_only_sessions'] = st.extra.get('oracle_only_sessions', 0) + 1
+            continue
         cases.append((h.coq(sess.get('pre_file')), len(h.labels()), sess, h.labels(), 'run_case'))
     st.extra['evaluations_inside_sessions'] = sum(c[1] for c in cases)
     res = eval_cases(ctx, st, 'iter', cases, per_file=max(4, len(cases) // ctx.n(8, 16) + 1))
@@ -1627,7 +1716,7 @@ def gen_all(ctx):
 def search_after_break(ctx):
     """something no longer checks and no oracle fired yet: more oracle evaluations"""
     rng = ctx.sub_rng('search')
-    sessions = load_corpus('iter') + [gen_session(rng, long=(i % 3 == 0), with_delete=(i % 2 == 0))
+    sessions = load_corpus('iter') + [gen_session(rng, long=(i % 3 == 0), with_delete=(i % 2 == 0), external=(i % 2 == 1))
                                       for i in range(ctx.n(150, 1500))]
     results = run_sessions(ctx, 'iter', sessions, 16)
     for sess, res in zip(sessions, results):
